@@ -1,5 +1,6 @@
 CONSTANTS MaxFiles = 3
  Flaw_HttpClosesNormally = FALSE
+ Flaw_MergesStaleDir = FALSE
  Emit = FALSE
 SPECIFICATION Spec
 INVARIANTS HitIsComplete NoPartialCommit
